@@ -851,6 +851,8 @@ pub fn p5_lifecycle(t: Transport, minors: Vec<u32>, variant: u8) -> Spec {
             let (go_tx, go_rx) = oneshot::channel::<()>();
             let (made_tx, made_rx) = oneshot::channel::<()>();
             let (done_tx, done_rx) = oneshot::channel::<()>();
+            let (tr_go_tx, tr_go_rx) = oneshot::channel::<()>();
+            let (tr_done_tx, tr_done_rx) = oneshot::channel::<()>();
             let producer = app("producer", move |hs, _| {
                 Box::pin(async move {
                     let h = hs[1].clone();
@@ -860,6 +862,13 @@ pub fn p5_lifecycle(t: Transport, minors: Vec<u32>, variant: u8) -> Spec {
                     let s12 = es(o1.create_service(su(2), ServiceInfo::new(1)).await, "create service 2")?;
                     let o2 = es(h.create_object(ou(2)).await, "create object 2")?;
                     let _ = prepared_tx.send(());
+                    // something transient that matches the first listener's filters, while that
+                    // listener sits finished (but not stopped) after its current-only enumeration
+                    let _ = tr_go_rx.await;
+                    let tr = es(o2.create_service(su(2), ServiceInfo::new(1)).await, "create transient service")?;
+                    es(tr.destroy().await, "destroy transient service")?;
+                    es(h.sync_broker().await, "sync")?;
+                    let _ = tr_done_tx.send(());
                     let _ = go_rx.await;
                     // after the listener's second start: a new service on object 2, then object 3
                     let s21 = es(o2.create_service(su(1), ServiceInfo::new(1)).await, "create service on 2")?;
@@ -877,6 +886,12 @@ pub fn p5_lifecycle(t: Transport, minors: Vec<u32>, variant: u8) -> Spec {
                     let h = hs[0].clone();
                     drop(hs);
                     let _ = prepared_rx.await;
+                    // a sibling listener on the same client that wants every new event: because of it
+                    // the broker sends this connection events the first listener must not take
+                    let mut sibling = es(h.create_bus_listener().await, "create sibling listener")?;
+                    es(sibling.add_filter(BusListenerFilter::any_object()), "add filter")?;
+                    es(sibling.add_filter(BusListenerFilter::any_object_any_service()), "add filter")?;
+                    es(sibling.start(BusListenerScope::New).await, "start sibling")?;
                     let mut l = es(h.create_bus_listener().await, "create listener")?;
                     // filters: object 1, any service 2 — and one that is taken back before the start
                     es(l.add_filter(BusListenerFilter::object(ou(1))), "add filter")?;
@@ -899,6 +914,20 @@ pub fn p5_lifecycle(t: Transport, minors: Vec<u32>, variant: u8) -> Spec {
                     }
                     if !l.is_finished() {
                         return Err("current-only listener is not finished after its last event".into());
+                    }
+                    let _ = tr_go_tx.send(());
+                    let _ = tr_done_rx.await;
+                    es(h.sync_broker().await, "sync")?;
+                    // the sibling saw the transient service come and go
+                    let mut sib = Vec::new();
+                    for _ in 0..2 {
+                        match sibling.next_event().await {
+                            Some(ev) => sib.push(ev),
+                            None => return Err("sibling listener ended early".into()),
+                        }
+                    }
+                    if !matches!(sib[0], BusEvent::ServiceCreated(id) if id.uuid == su(2)) || !matches!(sib[1], BusEvent::ServiceDestroyed(id) if id.uuid == su(2)) {
+                        return Err(format!("sibling listener reported {sib:?}"));
                     }
                     // 2. a second current-only start reports the same again (a fresh enumeration)
                     if variant & 1 == 1 {
@@ -953,6 +982,7 @@ pub fn p5_lifecycle(t: Transport, minors: Vec<u32>, variant: u8) -> Spec {
                         return Err(format!("events after stop: {late:?}"));
                     }
                     es(l.destroy().await, "destroy")?;
+                    drop(sibling);
                     Ok(())
                 })
             });
